@@ -417,7 +417,10 @@ fn shadow_side(v: &View, idx: u32, role: Role, side: Side, sh: &mut Shadow) {
                                 // the multiplicative decrease itself (beta_cubic = 0.7): other
                                 // decreases in the same batch come from the window function
                                 let target = rtt_prev.cwnd * 7 / 10;
-                                let is_md = r.cwnd.abs_diff(target) <= rtt_prev.cwnd / 200 + 2;
+                                // exact (beta is applied to the window as it was before this batch;
+                                // a window function decrease in congestion avoidance can come
+                                // within a fraction of a percent of 0.7, so no tolerance)
+                                let is_md = r.cwnd.abs_diff(target) <= 2;
                                 if r.cwnd > floor && is_md {
                                     if let Some(t0) = last_reduction_ns {
                                         let gap = e.t_ns - t0;
